@@ -34,9 +34,23 @@ SPEC = {
     "technique": "Coq inductive invariant over all schedules of any number of threads (transition system at "
                  "atomic-operation granularity) + lock-step differential execution of the extracted model against "
                  "the import-rewritten real code under a deterministic scheduler",
-    "level_text": "TO BE FILLED",
-    "level_note": "TO BE FILLED",
-    "assumptions": [],
+    "level_text": "Machine-checked inductive invariant of the transition system of one counter (state word, pointer, "
+                  "current mapping, persisted cells) at the granularity of individual atomic operations, for ANY number "
+                  "of goroutines, ANY amounts and ANY schedule: reader/lock counting (the reader field never under- or "
+                  "overflows), conservation of amounts (upper bound at every instant, exact total at quiescence), no "
+                  "nil-pointer dereference. The model is tied to the code by running the import-rewritten real "
+                  "internal/counter under a deterministic scheduler in lock step with the extracted model.",
+    "level_note": "Trusted: Coq kernel+VM, extraction, OCaml glue, the scheduler/atomic/mutex shims (they define what "
+                  "one atomic step is; sequential consistency, which sync/atomic guarantees), the import rewrite of "
+                  "the scratch copy, the harness. Modelled not verified: registration of the counter in the lock-free "
+                  "list (harness pre-registers), critical sections under file.mu are one step, the file-level protocol "
+                  "inside lookup (C04), timers, the self-triggered extension inside a lookup. 'no fault' is refuted "
+                  "(known finding use-after-unmap) and only characterised; bounded-steps/lock-freedom is not proved.",
+    "assumptions": [
+        "sequentially consistent atomics (sync/atomic); fewer than 2^30-1 goroutines inside Add at once",
+        "file.lookup succeeds when a file is mapped (lookup failures are C05's domain)",
+        "the counter is registered before the concurrent phase; critical sections under file.mu are atomic steps",
+    ],
     "trusted_base": [],
-    "own_objects": ["theories/Props/C03.vo"],
+    "own_objects": ["theories/Props/C03.vo", "theories/Proofs/CounterThms.vo", "theories/Proofs/CounterInv.vo", "theories/Proofs/CounterWord.vo"],
 }
